@@ -292,7 +292,7 @@ class Gen:
 
     def bool_(self, d):
         r = self.rng
-        if d > 0 and self.bpool and r.random() < 0.08:
+        if d > 0 and self.bpool and r.random() < 0.15:
             return r.choice(self.bpool)
         n = self._bool(d)
         if d > 0 and n[0] not in ("bv", "bl", "bc") and len(self.bpool) < 12:
@@ -358,7 +358,7 @@ class Gen:
 
     def int_(self, d):
         r = self.rng
-        if d > 0 and self.ipool and r.random() < 0.08:
+        if d > 0 and self.ipool and r.random() < 0.12:
             return r.choice(self.ipool)
         n = self._int(d)
         if d > 0 and n[0] not in ("iv", "il", "ic") and len(self.ipool) < 12:
